@@ -125,6 +125,12 @@ def _analyze_expression(
     """Analyzes and preprocesses expressions."""
     preserve_geometry_types = (ufl.classes.Jacobian,)
     expression = ufl.algorithms.apply_algebra_lowering.apply_algebra_lowering(expression)
+
+    # As UFL does for forms: in complex mode, reject the ordering of complex
+    # values (it would only fail in the C compiler) and mark real operands
+    if np.issubdtype(scalar_type, np.complexfloating):
+        expression = ufl.algorithms.comparison_checker.do_comparison_check(expression)
+
     expression = ufl.algorithms.apply_derivatives.apply_derivatives(expression)
     expression = ufl.algorithms.apply_function_pullbacks.apply_function_pullbacks(expression)
     expression = ufl.algorithms.apply_geometry_lowering.apply_geometry_lowering(
